@@ -53,7 +53,7 @@ def escapeToken (ps qu : Bool) (label : String) : String :=
 /-! ## the namespace -/
 
 inductive Err where
-  | immutable | valueError | lookupError | keyError | indexError
+  | immutable | valueError | lookupError | keyError | indexError | typeError
 deriving DecidableEq, Repr
 
 structure NS where
@@ -280,6 +280,11 @@ inductive Op where
   | del (n i : Nat)
   | rml (n : Nat) (c : Option Bool) (l : String)      -- `remove_taxon_label`
   | dl (n : Nat) (c : Option Bool) (l : String)       -- `discard_taxon_label`
+  /-- `remove_taxon_label(first_match_only=True)`.  `fixed = false` is the code as it is: once a label matches it iterates
+  over a single `Taxon` and raises `TypeError` before touching the namespace; `fixed = true` is the documented behaviour
+  (only the first match is removed).  The harness passes the flag according to which of the two it observed. -/
+  | rmlf (n : Nat) (c : Option Bool) (l : String) (fixed : Bool)
+  | dlf (n : Nat) (c : Option Bool) (l : String) (fixed : Bool)  -- `discard_taxon_label(first_match_only=True)`
   | sort (n : Nat) (rev : Bool)
   | rev (n : Nat)
   | clear (n : Nat)
@@ -386,6 +391,20 @@ def stepNs (w : World) (n : Nat) (s : NS) : Op → World × Out
   | .dl _ c l => match s.removeAll (s.lookupAll w.lab c l) with
     | (s', none) => (w.setNs n s', .ok)
     | (s', some e) => (w.setNs n s', .err e)
+  | .rmlf _ c l fixed => match s.lookupFirst w.lab c l with
+    | none => (w, .err .lookupError)
+    | some t => if fixed then
+        (match s.removeTaxon t with
+         | .ok s' => (w.setNs n s', .ok)
+         | .error e => (w, .err e))
+      else (w, .err .typeError)
+  | .dlf _ c l fixed => match s.lookupFirst w.lab c l with
+    | none => (w, .ok)
+    | some t => if fixed then
+        (match s.removeTaxon t with
+         | .ok s' => (w.setNs n s', .ok)
+         | .error e => (w, .err e))
+      else (w, .err .typeError)
   | .sort _ rev => (w.setNs n { s with taxa := sortBy w.lab rev s.taxa }, .ok)
   | .rev _ => (w.setNs n { s with taxa := s.taxa.reverse }, .ok)
   | .clear _ => (w.setNs n s.clear, .ok)
@@ -418,6 +437,7 @@ def stepNs (w : World) (n : Nat) (s : NS) : Op → World × Out
 def Op.ns : Op → Option Nat
   | .mk _ | .mkns _ _ | .relabel _ _ => none
   | .add n _ | .addTaxa n _ | .new n _ | .newTaxa n _ | .req n _ _ | .rm n _ | .del n _ | .rml n _ _ | .dl n _ _
+  | .rmlf n _ _ _ | .dlf n _ _ _
   | .sort n _ | .rev n | .clear n | .copy n | .deep n | .setMut n _ | .setCs n _ | .get n _ _ | .find n _ _
   | .gets n _ _ _ | .has n _ _ | .hasAll n _ _ | .bm n _ | .acc n _ | .tbm n _ | .lbm n _ _ | .all n | .btl n _
   | .nwk n _ _ _ | .bits n _ | .isIn n _ => some n
